@@ -129,6 +129,8 @@ pub trait Prop: 'static {
     fn assumptions() -> Vec<String> {
         Vec::new()
     }
+    /// Clamp resource-sizing fields of a case that did not come from `strategy` (byte-decoded fuzzer inputs).
+    fn sanitize(_case: &mut Self::Case) {}
 }
 
 //-----------------------------------------------------------------------------
